@@ -164,3 +164,131 @@ def attr_session_roundtrip(cases):
                 to_client = "stat-raises:" + type(e).__name__
             out.append((to_server, to_client))
     return out
+
+
+# ------------------------------------------------------------------------------------------------ watchdog
+def call_with_watchdog(session, fn, func_name, var_names, spin_counter, first_wait=8.0, poll=1.0, cap=240.0):
+    """Run `fn()` (a client call on `session`) in a worker thread.  Returns ("ok", value), ("exc", exception) or
+    ("stuck", evidence).  "stuck" is a *positive* finding of a livelock, not a timeout: the server thread sits in
+    `func_name`, its named locals are identical in two samples taken `poll` seconds apart, and meanwhile
+    `spin_counter()` (number of handle reads so far) advanced by at least 100 — the loop keeps reading without
+    changing its state.  A call that neither finishes nor is provably stuck within `cap` seconds is an
+    infrastructure problem (SessionError), never a verdict."""
+    box = {}
+    done = threading.Event()
+
+    def work():
+        try:
+            box["v"] = ("ok", fn())
+        except BaseException as e:  # noqa: B902 — reported to the caller
+            box["v"] = ("exc", e)
+        done.set()
+
+    th = threading.Thread(target=work, daemon=True)
+    th.start()
+    if done.wait(first_wait):
+        return box["v"]
+    waited = first_wait
+    while waited < cap:
+        c1 = spin_counter()
+        inside, s1, s2 = session.stuck_in(func_name, var_names, wait=poll)
+        c2 = spin_counter()
+        waited += poll
+        if done.is_set():
+            return box["v"]
+        if inside and s1 == s2 and c2 - c1 >= 100:
+            return ("stuck", {"locals": dict(s1), "reads_between_samples": c2 - c1, "waited_s": waited})
+        if done.wait(poll):
+            return box["v"]
+        waited += poll
+    raise SessionError("client call neither finished nor provably stuck after %.0f s" % cap)
+
+
+class ReadCounter:
+    """Counts SFTPHandle.read calls (class-level wrapper installed from outside, removed on exit)."""
+
+    def __init__(self):
+        self.n = 0
+
+    def __enter__(self):
+        from paramiko.sftp_handle import SFTPHandle
+
+        self.cls = SFTPHandle
+        self.orig = SFTPHandle.read
+        counter = self
+
+        def read(handle, offset, length):
+            counter.n += 1
+            return counter.orig(handle, offset, length)
+
+        SFTPHandle.read = read
+        return self
+
+    def __exit__(self, *a):
+        self.cls.read = self.orig
+
+    def __call__(self):
+        return self.n
+
+
+# ------------------------------------------------------------------------------------------------ in-memory server
+class PolicyFile:
+    """file-like object over bytes with a short-read policy: read(n) at position p returns at most policy(p, n)"""
+
+    def __init__(self, content, policy):
+        self.content, self.policy, self.pos, self.closed = content, policy, 0, False
+
+    def tell(self):
+        return self.pos
+
+    def seek(self, off):
+        if self.closed:
+            raise ValueError("I/O operation on closed file")
+        self.pos = off
+
+    def read(self, n):
+        if self.closed:
+            raise ValueError("I/O operation on closed file")
+        k = n if self.policy is None else min(n, self.policy(self.pos, n))
+        out = self.content[self.pos:self.pos + k]
+        self.pos += len(out)
+        return out
+
+    def close(self):
+        self.closed = True
+
+
+def make_mem_si(files):
+    """SFTPServerInterface serving `files`: {name: (bytes, policy | None)} read-only, handles are plain SFTPHandle
+    objects (default read() on `readfile`) with a stat()."""
+    from paramiko import SFTPAttributes, SFTPHandle, SFTPServerInterface, SFTP_NO_SUCH_FILE
+
+    class MemHandle(SFTPHandle):
+        def stat(self):
+            a = SFTPAttributes()
+            a.st_size = len(self.readfile.content)
+            return a
+
+    class MemSI(SFTPServerInterface):
+        def _get(self, path):
+            return files.get(path.lstrip("/"))
+
+        def open(self, path, flags, attr):
+            ent = self._get(path)
+            if ent is None:
+                return SFTP_NO_SUCH_FILE
+            h = MemHandle(flags)
+            h.readfile = PolicyFile(ent[0], ent[1])
+            return h
+
+        def stat(self, path):
+            ent = self._get(path)
+            if ent is None:
+                return SFTP_NO_SUCH_FILE
+            a = SFTPAttributes()
+            a.st_size = len(ent[0])
+            return a
+
+        lstat = stat
+
+    return MemSI
